@@ -590,6 +590,37 @@ func main() {
 		}
 		addRound(4, 0, ch, "change", 0)
 	}
+	// 2b. outside the Coq model (Changeset.Change is kept nil there): changesets carrying a
+	//     Change with nested OSM blocks, judged on the Go side only by idempotence of the
+	//     library's own output:  marshal (unmarshal (marshal v)) == marshal v  (tags are sorted
+	//     and way-node annotations erased by marshal itself)
+	for i := 0; i < nChange; i++ {
+		g := &gen{rng: rng, p: []float64{0.5, 1}[i%2], annot: true}
+		cs := g.element(3).(*osm.Changeset)
+		cs.Change = &osm.Change{Version: "0.6", Create: g.osm()}
+		if i%2 == 0 {
+			cs.Change.Delete = g.osm()
+		}
+		o := &osm.OSM{Changesets: osm.Changesets{cs}}
+		for cfg := range configs {
+			c := &wire.Case{Class: "go-only-changeset-change/" + configs[cfg]}
+			c.Int(5)
+			install(cfg)
+			b1, err1 := json.Marshal(o)
+			back := &osm.OSM{}
+			err2 := json.Unmarshal(b1, back)
+			b2, err3 := json.Marshal(back)
+			install(0)
+			switch {
+			case err1 != nil || err2 != nil || err3 != nil:
+				c.OracleFail = fmt.Sprintf("changeset with change: marshal %v, unmarshal %v, re-marshal %v", err1, err2, err3)
+			case !bytes.Equal(b1, b2):
+				c.OracleFail = "changeset with change: marshal(unmarshal(marshal v)) differs from marshal v"
+			}
+			c.Desc = map[string]interface{}{"input": fmt.Sprintf("%+v", *cs), "output": string(b1), "codec": configs[cfg]}
+			w.Add(c)
+		}
+	}
 	// 3. independently written documents
 	for i := 0; i < nDoc; i++ {
 		dg := &docGen{rng: rng, p: []float64{0.2, 0.5, 0.8, 1}[i%4]}
